@@ -23,6 +23,7 @@ from ural.utils import (
 )
 from ural.quote import (
     safely_unquote_auth_item,
+    safely_unquote_password,
     safely_unquote_path,
     safely_unquote_qsl,
     safely_unquote_fragment,
@@ -392,7 +393,7 @@ def normalize_url(
             user = safely_quote(user)
 
     if password:
-        password = safely_unquote_auth_item(password)
+        password = safely_unquote_password(password)
 
         if quoted:
             password = safely_quote(password)
